@@ -1,7 +1,9 @@
 package props
 
 import (
+	"context"
 	"fmt"
+	"net/http"
 	"net/url"
 	"sort"
 	"strings"
@@ -31,6 +33,34 @@ func setOf(s string) string {
 
 var c13States = []string{"", "1234", "12345678901", "123456789012", "1234567890123456789", "12345678901234567890", " padded-state-012345 ", "tab\tand-newline-012345\n", "short", "1234567", "12345678", "state-0123456789", "a&b=c#d %+é/?", "st ate+plus%2Bpct", "<script>alert(1)</script>x", "\"quoted'state\""}
 
+// c13ModeExt is an operator's response-mode extension: "web_message", rendered like a fragment response.
+type c13ModeExt struct{}
+
+func (c13ModeExt) ResponseModes() fosite.ResponseModeTypes {
+	return fosite.ResponseModeTypes{fosite.ResponseModeType("web_message")}
+}
+func (c13ModeExt) WriteAuthorizeResponse(_ context.Context, rw http.ResponseWriter, ar fosite.AuthorizeRequester, resp fosite.AuthorizeResponder) {
+	u := *ar.GetRedirectURI()
+	u.Fragment = ""
+	rw.Header().Set("Location", u.String()+"#"+resp.GetParameters().Encode())
+	rw.WriteHeader(http.StatusSeeOther)
+}
+func (c13ModeExt) WriteAuthorizeError(_ context.Context, rw http.ResponseWriter, ar fosite.AuthorizeRequester, err error) {
+	if !ar.IsRedirectURIValid() {
+		// nothing trustworthy to redirect to: render the error to the user agent, as the library does
+		rw.Header().Set("Content-Type", "application/json;charset=UTF-8")
+		rw.WriteHeader(fosite.ErrorToRFC6749Error(err).CodeField)
+		_, _ = rw.Write([]byte(`{"error":"` + fosite.ErrorToRFC6749Error(err).ErrorField + `"}`))
+		return
+	}
+	u := *ar.GetRedirectURI()
+	u.Fragment = ""
+	v := fosite.ErrorToRFC6749Error(err).ToValues()
+	v.Set("state", ar.GetState())
+	rw.Header().Set("Location", u.String()+"#"+v.Encode())
+	rw.WriteHeader(http.StatusSeeOther)
+}
+
 func TestC13_AuthorizeValidation(t *testing.T) {
 	h.SetProperty("C13")
 	selfTest(t)
@@ -43,7 +73,17 @@ func TestC13_AuthorizeValidation(t *testing.T) {
 		if minLen == 0 {
 			minLen = 8
 		}
-		w := h.NewWorld(h.Spec{RefreshScopes: []string{}, Mutate: func(c *fosite.Config) { c.MinParameterEntropy = minParam }})
+		// the operator may have installed a response-mode extension offering "web_message"
+		modeExt := rapid.IntRange(0, 2).Draw(rt, "responseModeExtension") == 0
+		w := h.NewWorld(h.Spec{RefreshScopes: []string{}, Mutate: func(c *fosite.Config) {
+			c.MinParameterEntropy = minParam
+			if modeExt {
+				c.ResponseModeHandlerExtension = c13ModeExt{}
+			}
+		}})
+		if modeExt {
+			h.Label("response-mode-extension")
+		}
 		h.Label(fmt.Sprintf("min-parameter-entropy=%d", minParam))
 		// ---- registration
 		cl := stdClient("c13", rapid.IntRange(0, 3).Draw(rt, "public") == 0)
@@ -68,7 +108,7 @@ func TestC13_AuthorizeValidation(t *testing.T) {
 			}
 		}
 		modesRegistered := map[string]bool{}
-		for _, m := range []fosite.ResponseModeType{fosite.ResponseModeQuery, fosite.ResponseModeFragment, fosite.ResponseModeFormPost} {
+		for _, m := range []fosite.ResponseModeType{fosite.ResponseModeQuery, fosite.ResponseModeFragment, fosite.ResponseModeFormPost, fosite.ResponseModeType("web_message")} {
 			if rapid.Bool().Draw(rt, "mode:"+string(m)) {
 				cl.ResponseModes = append(cl.ResponseModes, m)
 				modesRegistered[string(m)] = true
@@ -210,6 +250,9 @@ func TestC13_AuthorizeValidation(t *testing.T) {
 		if mode != "" && !modesRegistered[mode] {
 			unmet = append(unmet, "response_mode not allowed for the client")
 		}
+		if mode == "web_message" && !modeExt {
+			unmet = append(unmet, "response_mode not supported by the server")
+		}
 		if len(effState) < minLen {
 			unmet = append(unmet, "state shorter than the minimum")
 		}
@@ -302,7 +345,14 @@ func TestC13_AuthorizeValidation(t *testing.T) {
 				if front != "" {
 					uq.Set("state", front)
 				}
+				frontMode := rapid.SampledFrom([]string{"", "", "fragment", "form_post"}).Draw(rt, "frontChannelResponseMode")
+				if frontMode != "" {
+					uq.Set("response_mode", frontMode)
+				}
 				r2 := w.Authorize(uq, h.Consent{})
+				if frontMode != "" && !modesRegistered[frontMode] && r2.Mode == frontMode && (r2.Code != "" || r2.Location != "" || r2.Mode == "form_post") {
+					h.Violate(rt, "C13/response-mode-not-registered", "the client may not use response_mode=%s (registered %v), the push named none, the front channel asked for it: the response was delivered as %s", frontMode, cl.ResponseModes, r2.Mode)
+				}
 				if (r2.Location != "" || r2.Mode == "form_post") && r2.State != pushState {
 					h.Violate(rt, "C13/state-not-echoed", "state pushed %q, front channel sent %q, response echoes %q (%v)", pushState, front, r2.State, r2.Err)
 				}
